@@ -119,6 +119,17 @@ check("C10",
       "unordered) equals the bag of choices and that the length is the sum of products.",
       QRY_NOTE, "DESIGN.md section 5, C10")
 
+check("C04",
+      "TLA+ statement of conjugation on PDG ids (spec/Conj.tla: ConjE, ConjP, ConjBag) with the property's theorems checked by TLC "
+      "on the whole installed tables; exhaustive call traces of the real code validated by TLC",
+      "TLC evaluates id negation, involution, closure, 'unknown never altered' and agreement of the PDG-name route on all 806 "
+      "EvtGen and 1014 PDG names (data exported from the installed particle package, ids as strings). Every name is then "
+      "conjugated by the real utility under both namings and three call styles in long shuffled sequences with near and far "
+      "repeats (the 64-entry cache is cycled many times), each result and its re-conjugation judged by TLC; random final "
+      "states and decay modes (multiplicities 1..5, JSON-like metadata) and the CDecay route for the same decays are judged "
+      "against ConjBag, with cross-layer agreement.",
+      "Trusts TLC and the installed particle data (ids, self-conjugate flags, name maps) as the reference.",
+      "DESIGN.md section 5, C04")
 check("C07",
       "TLA+ specification of the eleven global queries (spec/DecGlobals.tla: left fold = declarative last-wins reading, checked "
       "by TLC); files parsed by the real code and all queries validated by TLC",
